@@ -20,6 +20,7 @@ const HOSTILE: &[(&str, &str)] = &[
     ("newline-then-indent", "Shop\n    Evil:Account    5 CHF"),
     ("blank-line-then-entry", "Shop\n\n2030/01/01 injected\n    A    1 CHF\n    B"),
     ("crlf", "Shop\r\nsecond"),
+    ("bare-cr", "Shop\rsecond"),
     ("leading-paren", "(Shop) downtown"),
     ("leading-star", "* Shop"),
     ("leading-bang", "! Shop"),
